@@ -16,6 +16,12 @@ def rnd_codes(rng, known, width, n, grease=True, unknown=True):
             out.append(rng.choice(known))
         elif r < 0.8 and grease and width == 2:
             out.append(rng.choice(GREASE2))
+        elif unknown and width == 2 and rng.random() < 0.35:
+            # near misses of the RFC 8701 pattern: both low nibbles 0xA but different bytes, one byte of a GREASE value,
+            # neighbours of GREASE values
+            g = rng.choice(GREASE2)
+            out.append(rng.choice([(g & 0xff00) | (rng.choice(GREASE2) & 0xff), g ^ 0x0100, g ^ 0x0001, (g + 1) & 0xffff, g - 1,
+                                   g & 0xff00, g & 0x00ff, (g & 0xff00) | 0x0b]))
         elif unknown:
             out.append(rng.randrange(256 ** width))
         else:
